@@ -1,4 +1,5 @@
 import Wip.ModsStages
+/-! Paired-end modifiers: `PairedModifierWrapper` and `PairedReverseComplementer`. Core Lean only. -/
 namespace Cutadapt
 open Cutadapt.Adapters Cutadapt.Qualtrim
 
@@ -74,10 +75,266 @@ theorem pairedRevcompCore_eq (c1 c2 : Option Cutter) (suffix first1 first2 : Boo
         | error e => rfl
         | ok v4 =>
           obtain ⟨t2s, m2s, x4⟩ := v4
-          simp only [pairUseRc, originalAfter]
+          simp only [pairUseRc]
           by_cases hu : ((!m1s.isEmpty || !m2s.isEmpty) && decide (scoreSum m1s + scoreSum m2s > scoreSum m1 + scoreSum m2)) = true
           · simp only [hu, if_true]
             rfl
-          · simp only [hu, if_false]
+          · simp only [hu]
             rfl
+
+/-- `applyP (.pairedRevcomp …)` written out -/
+theorem applyP_pairedRevcomp (ads1 ads2 : List Matchable) (c1 c2 : Option Cutter) (suffix first1 first2 : Bool)
+    (r1 r2 : Read) (i1 i2 : Info) :
+    applyP ads1 ads2 (.pairedRevcomp c1 c2 suffix first1 first2) (r1, r2) (i1, i2) =
+      pairedRevcompCore c1 c2 suffix first1 first2 (upperIf (pairLower c1 c2) r1) (upperIf (pairLower c1 c2) r2) i1 i2 :=
+  applyP_pairedRevcomp_core ..
+
+/-! ### `cutterOpt` -/
+
+theorem matchAndTrim_readAfter (c : Cutter) (read tr ra : Read) (ms : List AnyMatch)
+    (h : matchAndTrim c read = .ok (tr, ms, ra)) : ra = searchRead c read := by
+  rcases getLast?_cases (rounds c.adapters c.times (searchRead c read) []).2 with hn | ⟨last, hl⟩
+  · rw [matchAndTrim_no_match c read hn] at h
+    simp only [Except.ok.injEq, Prod.mk.injEq] at h
+    exact h.2.2.symm
+  · rw [matchAndTrim_last c read last hl] at h
+    unfold actionResult at h
+    cases hact : c.action <;> simp only [hact] at h
+    case crop =>
+      cases last with
+      | single _ r => simp only [Except.ok.injEq, Prod.mk.injEq] at h; exact h.2.2.symm
+      | linked _ _ _ => simp at h
+    all_goals (simp only [Except.ok.injEq, Prod.mk.injEq] at h; exact h.2.2.symm)
+
+theorem cutterOpt_none_matches (r t x : Read) (m : List AnyMatch) (h : cutterOpt none r = .ok (t, m, x)) :
+    t = r ∧ m = [] ∧ x = r := by
+  simp only [cutterOpt, Except.ok.injEq, Prod.mk.injEq] at h
+  exact ⟨h.1.symm, h.2.1.symm, h.2.2.symm⟩
+
+theorem cutterOpt_segRel (s : Bool) (c : Option Cutter) (hok : ∀ c' ∈ c, CutterOK s c') (r t x : Read)
+    (m : List AnyMatch) (h : cutterOpt c r = .ok (t, m, x)) : SegRel s [] r t ∧ t.name = r.name := by
+  cases c with
+  | none =>
+    obtain ⟨rfl, _, _⟩ := cutterOpt_none_matches r t x m h
+    exact ⟨(SameSeg.refl _).segRel s, rfl⟩
+  | some c' => exact matchAndTrim_segRel s c' (hok c' rfl) r t x m h
+
+theorem upperBytes_idem (xs : Bytes) : upperBytes (upperBytes xs) = upperBytes xs := by
+  simp [upperBytes, asciiUpper_idem]
+
+/-- the object handed to a cutter is left with the sequence it already had once the pair has been upper-cased -/
+theorem cutterOpt_readAfter_seq (c1 c2 c : Option Cutter) (hc : c = c1 ∨ c = c2) (r t x : Read) (m : List AnyMatch)
+    (h : cutterOpt c (upperIf (pairLower c1 c2) r) = .ok (t, m, x)) : x.seq = (upperIf (pairLower c1 c2) r).seq := by
+  cases c with
+  | none => rw [(cutterOpt_none_matches _ t x m h).2.2]
+  | some c' =>
+    rw [matchAndTrim_readAfter c' _ t x m h]
+    unfold searchRead
+    split
+    · rename_i hl
+      have hL : pairLower c1 c2 = true := by
+        rcases hc with e | e <;> simp [pairLower, ← e, hl]
+      simp [upperIf, hL, upperBytes_idem]
+    · rfl
+
+/-! ### The wrapper -/
+
+def applySOpt (names : Names) (side : Nat) (m : Option SMod) (r : Read) (i : Info) : Except Err (Read × Info × List Event) :=
+  match m with
+  | some m => applyS names side m r i
+  | none => .ok (r, i, [])
+
+theorem applyP_wrap (ads1 ads2 : List Matchable) (m1 m2 : Option SMod) (r1 r2 : Read) (i1 i2 : Info) :
+    applyP ads1 ads2 (.wrap m1 m2) (r1, r2) (i1, i2) =
+      match applySOpt (namesOf ads1) 0 m1 r1 i1 with
+      | .error e => .error e
+      | .ok (r1', i1', e1) =>
+        match applySOpt (namesOf ads2) 1 m2 r2 i2 with
+        | .error e => .error e
+        | .ok (r2', i2', e2) => .ok ((r1', r2'), (i1', i2'), e1 ++ e2) := by
+  have : applyP ads1 ads2 (.wrap m1 m2) (r1, r2) (i1, i2) =
+      (do let (r1', i1', e1) ← applySOpt (namesOf ads1) 0 m1 r1 i1
+          let (r2', i2', e2) ← applySOpt (namesOf ads2) 1 m2 r2 i2
+          pure ((r1', r2'), (i1', i2'), e1 ++ e2)) := by
+    cases m1 <;> cases m2 <;> rfl
+  rw [this]
+  simp only [bind, Except.bind, pure, Except.pure]
+  cases applySOpt (namesOf ads1) 0 m1 r1 i1 with
+  | error e => rfl
+  | ok v =>
+    obtain ⟨a, b, c⟩ := v
+    simp only
+    cases applySOpt (namesOf ads2) 1 m2 r2 i2 with
+    | error e => rfl
+    | ok w => obtain ⟨a', b', c'⟩ := w; rfl
+
+theorem applySOpt_segRel (s : Bool) (names : Names) (side : Nat) (m : Option SMod) (hok : ∀ x ∈ m, x.OK s)
+    (hrc : ∀ x ∈ m, x.isRevcomp = false) (r r' : Read) (i i' : Info) (evs : List Event) (hq : QualOK r)
+    (h : applySOpt names side m r i = .ok (r', i', evs)) :
+    SegRel s ((m.map SMod.capBases).getD []) r r' ∧ i'.isRc = i.isRc := by
+  cases m with
+  | none =>
+    simp only [applySOpt, Except.ok.injEq, Prod.mk.injEq] at h
+    obtain ⟨rfl, rfl, _⟩ := h
+    exact ⟨(SameSeg.refl _).segRel s, rfl⟩
+  | some x => exact applyS_segRel s names side x (hok x rfl) (hrc x rfl) r r' i i' evs hq h
+
+/-- **`PairedModifierWrapper`**: each mate is treated by its own modifier, independently of the other -/
+theorem applyP_wrap_segRel (s : Bool) (ads1 ads2 : List Matchable) (m1 m2 : Option SMod)
+    (hok1 : ∀ x ∈ m1, x.OK s) (hok2 : ∀ x ∈ m2, x.OK s)
+    (hrc1 : ∀ x ∈ m1, x.isRevcomp = false) (hrc2 : ∀ x ∈ m2, x.isRevcomp = false)
+    (r1 r2 o1 o2 : Read) (i1 i2 j1 j2 : Info) (evs : List Event) (hq1 : QualOK r1) (hq2 : QualOK r2)
+    (h : applyP ads1 ads2 (.wrap m1 m2) (r1, r2) (i1, i2) = .ok ((o1, o2), (j1, j2), evs)) :
+    SegRel s ((m1.map SMod.capBases).getD []) r1 o1 ∧ SegRel s ((m2.map SMod.capBases).getD []) r2 o2 ∧
+    j1.isRc = i1.isRc ∧ j2.isRc = i2.isRc := by
+  rw [applyP_wrap] at h
+  split at h
+  · simp at h
+  · rename_i a b c ha
+    split at h
+    · simp at h
+    · rename_i a' b' c' hb
+      simp only [Except.ok.injEq, Prod.mk.injEq] at h
+      obtain ⟨⟨rfl, rfl⟩, ⟨rfl, rfl⟩, _⟩ := h
+      obtain ⟨x1, x2⟩ := applySOpt_segRel s _ 0 m1 hok1 hrc1 r1 _ i1 _ c hq1 ha
+      obtain ⟨y1, y2⟩ := applySOpt_segRel s _ 1 m2 hok2 hrc2 r2 _ i2 _ c' hq2 hb
+      exact ⟨x1, y1, x2, y2⟩
+
+/-! ### The paired reverse-complementer -/
+
+theorem upperIf_segRel (s : Bool) (L : Bool) (hL : s = true → L = false) (r : Read) : SegRel s [] r (upperIf L r) := by
+  cases L with
+  | false => exact (SameSeg.refl r).segRel s
+  | true =>
+    cases s with
+    | true => simp at hL
+    | false => exact SegRel.of_marked (by simp [upperIf, upperBytes]) rfl
+
+theorem cutterOK_not_lowercase (c : Cutter) (h : CutterOK true c) : (c.action == Action.lowercase) = false := by
+  rcases h with h | ⟨h, _⟩
+  · rcases h with e | e | e | e <;> simp [e, Action.beq_eq_decide]
+  · simp at h
+
+theorem pairLower_false (c1 c2 : Option Cutter) (h1 : ∀ c ∈ c1, CutterOK true c) (h2 : ∀ c ∈ c2, CutterOK true c) :
+    pairLower c1 c2 = false := by
+  unfold pairLower
+  cases c1 <;> cases c2 <;> simp [cutterOK_not_lowercase, h1, h2]
+
+/-- what the four `match_and_trim` calls of `PairedReverseComplementer.__call__` return decides everything -/
+theorem pairedRevcompCore_ok (c1 c2 : Option Cutter) (suffix first1 first2 : Bool) (r1 r2 : Read) (i1 i2 : Info)
+    (t1 t2 t1s t2s x1 x2 x3 x4 : Read) (m1 m2 m1s m2s : List AnyMatch)
+    (h1 : cutterOpt c1 r1 = .ok (t1, m1, x1)) (h2 : cutterOpt c2 r2 = .ok (t2, m2, x2))
+    (h3 : cutterOpt c1 r2 = .ok (t1s, m1s, x3)) (h4 : cutterOpt c2 r1 = .ok (t2s, m2s, x4)) :
+    pairedRevcompCore c1 c2 suffix first1 first2 r1 r2 i1 i2 =
+      if pairUseRc m1 m2 m1s m2s then
+        .ok ((if suffix then { t1s with name := t1s.name ++ bytesOfStr " rc" } else t1s,
+              if suffix then { t2s with name := t2s.name ++ bytesOfStr " rc" } else t2s),
+             ({ originalAfter first1 i1 r1 with isRc := some true, mts := (originalAfter first1 i1 r1).mts ++ m1s },
+              { originalAfter first2 i2 r2 with isRc := some true, mts := (originalAfter first2 i2 r2).mts ++ m2s }),
+             Event.revComp :: (matchedEvents 0 m1s true ++ matchedEvents 1 m2s true))
+      else
+        .ok ((t1, t2),
+             ({ originalAfter first1 i1 r1 with isRc := some false, mts := (originalAfter first1 i1 r1).mts ++ m1 },
+              { originalAfter first2 i2 r2 with isRc := some false, mts := (originalAfter first2 i2 r2).mts ++ m2 }),
+             matchedEvents 0 m1 false ++ matchedEvents 1 m2 false) := by
+  rw [pairedRevcompCore_eq, h1, h2, h3, h4]
+  simp only
+  -- the `AttributeError` branch is dead: a missing cutter reports no matches
+  have d1 : ∀ n, (n = m1 ∨ n = m1s) → (!n.isEmpty && c1.isNone) = false := by
+    intro n hn
+    cases c1 with
+    | some _ => simp
+    | none =>
+      have a := (cutterOpt_none_matches _ _ _ _ h1).2.1
+      have b := (cutterOpt_none_matches _ _ _ _ h3).2.1
+      rcases hn with e | e <;> simp [e, a, b]
+  have d2 : ∀ n, (n = m2 ∨ n = m2s) → (!n.isEmpty && c2.isNone) = false := by
+    intro n hn
+    cases c2 with
+    | some _ => simp
+    | none =>
+      have a := (cutterOpt_none_matches _ _ _ _ h2).2.1
+      have b := (cutterOpt_none_matches _ _ _ _ h4).2.1
+      rcases hn with e | e <;> simp [e, a, b]
+  cases hu : pairUseRc m1 m2 m1s m2s with
+  | true =>
+    simp only [if_true, Bool.true_and, d1 m1s (Or.inr rfl), d2 m2s (Or.inr rfl), Bool.or_self, Bool.false_eq_true, if_false]
+    rfl
+  | false =>
+    simp only [Bool.false_eq_true, if_false, Bool.false_and, d1 m1 (Or.inl rfl), d2 m2 (Or.inl rfl), Bool.or_self]
+    rfl
+
+/-- `PairedReverseComplementer` never raises on its own: an error is an error of one of the four calls -/
+theorem pairedRevcompCore_error (c1 c2 : Option Cutter) (suffix first1 first2 : Bool) (r1 r2 : Read) (i1 i2 : Info)
+    (e : Err) (h : pairedRevcompCore c1 c2 suffix first1 first2 r1 r2 i1 i2 = .error e) :
+    cutterOpt c1 r1 = .error e ∨ cutterOpt c2 r2 = .error e ∨ cutterOpt c1 r2 = .error e ∨ cutterOpt c2 r1 = .error e := by
+  cases h1 : cutterOpt c1 r1 with
+  | error e1 => rw [pairedRevcompCore_eq, h1] at h; simp at h; exact Or.inl (by rw [h])
+  | ok v1 =>
+    obtain ⟨t1, m1, x1⟩ := v1
+    cases h2 : cutterOpt c2 r2 with
+    | error e2 => rw [pairedRevcompCore_eq, h1, h2] at h; simp at h; exact Or.inr (Or.inl (by rw [h]))
+    | ok v2 =>
+      obtain ⟨t2, m2, x2⟩ := v2
+      cases h3 : cutterOpt c1 r2 with
+      | error e3 => rw [pairedRevcompCore_eq, h1, h2, h3] at h; simp at h; exact Or.inr (Or.inr (Or.inl (by rw [h])))
+      | ok v3 =>
+        obtain ⟨t1s, m1s, x3⟩ := v3
+        cases h4 : cutterOpt c2 r1 with
+        | error e4 => rw [pairedRevcompCore_eq, h1, h2, h3, h4] at h; simp at h; exact Or.inr (Or.inr (Or.inr (by rw [h])))
+        | ok v4 =>
+          obtain ⟨t2s, m2s, x4⟩ := v4
+          rw [pairedRevcompCore_ok c1 c2 suffix first1 first2 r1 r2 i1 i2 _ _ _ _ _ _ _ _ _ _ _ _ h1 h2 h3 h4] at h
+          split at h <;> simp at h
+
+/-- **Paired `--revcomp`**: the output mates are slices of (R1, R2), or of (R2, R1) when the swapped pair was chosen -/
+theorem applyP_pairedRevcomp_segRel (s : Bool) (ads1 ads2 : List Matchable) (c1 c2 : Option Cutter)
+    (sfx first1 first2 : Bool) (hok1 : ∀ c ∈ c1, CutterOK s c) (hok2 : ∀ c ∈ c2, CutterOK s c)
+    (r1 r2 o1 o2 : Read) (i1 i2 j1 j2 : Info) (evs : List Event)
+    (h : applyP ads1 ads2 (.pairedRevcomp c1 c2 sfx first1 first2) (r1, r2) (i1, i2) = .ok ((o1, o2), (j1, j2), evs)) :
+    (j1.isRc = some true ∧ j2.isRc = some true ∧ SegRel s [] r2 o1 ∧ SegRel s [] r1 o2) ∨
+    (j1.isRc = some false ∧ j2.isRc = some false ∧ SegRel s [] r1 o1 ∧ SegRel s [] r2 o2) := by
+  rw [applyP_pairedRevcomp] at h
+  have hL : s = true → pairLower c1 c2 = false := by
+    intro hs; subst hs; exact pairLower_false c1 c2 hok1 hok2
+  have u1 := upperIf_segRel s _ hL r1
+  have u2 := upperIf_segRel s _ hL r2
+  generalize upperIf (pairLower c1 c2) r1 = r1' at h u1
+  generalize upperIf (pairLower c1 c2) r2 = r2' at h u2
+  cases h1 : cutterOpt c1 r1' with
+  | error e1 => rw [pairedRevcompCore_eq, h1] at h; simp at h
+  | ok v1 =>
+    obtain ⟨t1, m1, x1⟩ := v1
+    cases h2 : cutterOpt c2 r2' with
+    | error e2 => rw [pairedRevcompCore_eq, h1, h2] at h; simp at h
+    | ok v2 =>
+      obtain ⟨t2, m2, x2⟩ := v2
+      cases h3 : cutterOpt c1 r2' with
+      | error e3 => rw [pairedRevcompCore_eq, h1, h2, h3] at h; simp at h
+      | ok v3 =>
+        obtain ⟨t1s, m1s, x3⟩ := v3
+        cases h4 : cutterOpt c2 r1' with
+        | error e4 => rw [pairedRevcompCore_eq, h1, h2, h3, h4] at h; simp at h
+        | ok v4 =>
+          obtain ⟨t2s, m2s, x4⟩ := v4
+          rw [pairedRevcompCore_ok c1 c2 sfx first1 first2 r1' r2' i1 i2 _ _ _ _ _ _ _ _ _ _ _ _ h1 h2 h3 h4] at h
+          have s1 := (cutterOpt_segRel s c1 hok1 _ _ _ _ h1).1
+          have s2 := (cutterOpt_segRel s c2 hok2 _ _ _ _ h2).1
+          have s3 := (cutterOpt_segRel s c1 hok1 _ _ _ _ h3).1
+          have s4 := (cutterOpt_segRel s c2 hok2 _ _ _ _ h4).1
+          split at h
+          · simp only [Except.ok.injEq, Prod.mk.injEq] at h
+            obtain ⟨⟨rfl, rfl⟩, ⟨rfl, rfl⟩, _⟩ := h
+            left
+            refine ⟨rfl, rfl, ?_, ?_⟩
+            · have := u2.trans s3
+              obtain ⟨a, b, e1, e2⟩ := this
+              refine ⟨a, b, ?_, ?_⟩ <;> split <;> assumption
+            · have := u1.trans s4
+              obtain ⟨a, b, e1, e2⟩ := this
+              refine ⟨a, b, ?_, ?_⟩ <;> split <;> assumption
+          · simp only [Except.ok.injEq, Prod.mk.injEq] at h
+            obtain ⟨⟨rfl, rfl⟩, ⟨rfl, rfl⟩, _⟩ := h
+            exact Or.inr ⟨rfl, rfl, by simpa using u1.trans s1, by simpa using u2.trans s2⟩
+
 end Cutadapt
